@@ -1217,74 +1217,3 @@ Qed.
 
 End Monotone.
 
-(* ------------------------------------------------------------------ established: the full statement is false *)
-
-(* the full statement of the last-but-one clause of C01 *)
-Definition established_sound_statement : Prop :=
-  forall c bits clear tls outs choices,
-    let r := run c bits clear tls outs choices in
-    established_sound (final (c_feats c) (c_ws c) (mon0 bits) (trace r)) r.
-
-Lemma w1_established : r_class w1_run = ROk /\ pending (mon_of cfg_ab 0 w1_run).
-Proof.
-  split; [vm_compute; reflexivity|]. exists fb. split; vm_compute; auto.
-Qed.
-
-Lemma w2_established : r_class w2_run = ROk /\ q_need_header (mon_of cfg_ab 0 w2_run) = true.
-Proof. split; vm_compute; reflexivity. Qed.
-
-Lemma established_sound_refuted_required :
-  exists c bits clear tls outs choices,
-    let r := run c bits clear tls outs choices in
-    r_class r = ROk /\ pending (final (c_feats c) (c_ws c) (mon0 bits) (trace r)).
-Proof.
-  exists cfg_ab, 0%N, [hdr; mkItem false (PFeatures [FC xa (str "a") true false; FC xb (str "b") true false])], [],
-         [mkO st_Ready false false], [xa].
-  exact w1_established.
-Qed.
-
-Lemma established_sound_refuted_restart :
-  exists c bits clear tls outs choices,
-    let r := run c bits clear tls outs choices in
-    r_class r = ROk /\ q_need_header (final (c_feats c) (c_ws c) (mon0 bits) (trace r)) = true.
-Proof.
-  exists cfg_ab, 0%N, [hdr; mkItem false (PFeatures [FC xa (str "a") false false])], [],
-         [mkO st_Ready true false], [xa].
-  exact w2_established.
-Qed.
-
-Lemma established_sound_false : ~ established_sound_statement.
-Proof.
-  intro S. destruct w2_established as [A B].
-  destruct (S cfg_ab 0%N [hdr; mkItem false (PFeatures [FC xa (str "a") false false])] []
-              [mkO st_Ready true false] [xa] A) as (_ & _ & X & _).
-  unfold mon_of in B. simpl c_feats in *. simpl c_ws in *. unfold w2_run in B. congruence.
-Qed.
-
-(* ------------------------------------------------------------------ tables read from the sources *)
-
-Lemma tbl_bits_distinct :
-  st_Secure = 1%N /\ st_Authn = 2%N /\ st_Ready = 4%N /\ st_Received = 8%N /\ st_S2S = 64%N.
-Proof. vm_compute. repeat split; reflexivity. Qed.
-
-Lemma tbl_builtin_masks :
-  (ft_starttls_nec = 0%N /\ ft_starttls_proh = st_Secure /\ ft_starttls_negotiable = true) /\
-  (ft_sasl_nec = st_Secure /\ ft_sasl_proh = st_Authn /\ ft_sasl_negotiable = true) /\
-  (ft_bind_nec = st_Authn /\ ft_bind_proh = st_Ready /\ ft_bind_negotiable = true) /\
-  (ft_bidi_nec = st_Secure /\ ft_bidi_proh = st_Authn) /\
-  ft_starttls_space = ns_StartTLS.
-Proof. vm_compute. repeat split; reflexivity. Qed.
-
-(* with those masks the built-in features can only run in the order STARTTLS, SASL, bind *)
-Lemma builtin_order c bits clear tls outs choices pre f st o post :
-  (forall g, find_space ns_StartTLS (c_feats c) = Some g -> f_nec g = ft_starttls_nec /\ f_proh g = ft_starttls_proh) ->
-  trace (run c bits clear tls outs choices) = pre ++ ENeg f st o :: post ->
-  (f_nec f = ft_sasl_nec -> f_proh f = ft_sasl_proh -> has st st_Secure = true /\ disj st st_Authn = true) /\
-  (f_nec f = ft_bind_nec -> f_proh f = ft_bind_proh -> has st st_Authn = true /\ disj st st_Ready = true) /\
-  (f_nec f = ft_starttls_nec -> f_proh f = ft_starttls_proh -> disj st st_Secure = true).
-Proof.
-  intros Hb E.
-  pose proof (proj1 (holds_at _ _ _ _ _) (clause_prerequisites_builtin c bits clear tls outs choices Hb) _ _ _ E) as X.
-  simpl in X. unfold eligible in X. apply andb_true_iff in X. destruct X as [X1 X2].
-  repeat split; intros Hn Hp; rewrite ?Hn, ?Hp in *; auto.
-Qed.
